@@ -62,8 +62,8 @@ func c13Plan(tier string) []PlanItem {
 func init() {
 	oracles["C13"] = oracleC13
 	props["C13"] = &propDef{
-		Level: "exploration",
-		Rule:  "payload alphabet (50 shapes) x role set-up {plain follower/leader, takeover candidate with equal priority, takeover candidate with higher priority} x outside action {put, delete, put then delete}, the action placed by the explorer at every choice point of the run (<= D deviations, plus latencies < H/2); oracle: no worker death, no zero-time operation storm (>64 store ops of one instance at one virtual instant), bounded goroutines, no stuck goroutine, every replacement of a live foreign record is a legitimate preemption of a parseable record, every promotion follows an acquisition write of the claimer, a leader whose record was rewritten or deleted is demoted within H+2T; non-trivial = the outside action was applied",
+		Level:  "exploration",
+		Rule:   "payload alphabet (50 shapes) x role set-up {plain follower/leader, takeover candidate with equal priority, takeover candidate with higher priority} x outside action {put, delete, put then delete}, the action placed by the explorer at every choice point of the run (<= D deviations, plus latencies < H/2); oracle: no worker death, no zero-time operation storm (>64 store ops of one instance at one virtual instant), bounded goroutines, no stuck goroutine, every replacement of a live foreign record is a legitimate preemption of a parseable record, every promotion follows an acquisition write of the claimer, a leader whose record was rewritten or deleted is demoted within H+2T; non-trivial = the outside action was applied",
 		Assume: []string{"byte strings outside the alphabet are not decided", "stack exhaustion by unbounded recursion is observed through its operation storm (the spin guard ends the run before the Go stack limit)"},
 		Plan:   c13Plan,
 	}
